@@ -1,11 +1,32 @@
 /-
-  Props/C18 — exporting and re-importing genesis preserves the chain (M-Core part; in progress).
+  Props/C18 — exporting and re-importing genesis preserves the chain (x/rollapp + x/sequencer part,
+  over M-Core; the other modules' genesis round trips live in their own packages).
 -/
-import DymVerif.Model.CoreGenesis
+import DymVerif.Lemmas.CoreGenesis
 namespace DymVerif.C18
 open DymVerif DymVerif.Core
 
-/-- the flat genesis keeps hub height, time and parameters -/
+/-- **export ∘ import is the identity** on every M-Core state whose rollapp ids are pairwise distinct
+    and whose notice queue is backed by the sequencer records — all components: rollapp records,
+    every state info under its index, latest and latest-finalized indices, finalization queue,
+    liveness events, sequencer liabilities, obsolete versions, sequencers, proposers, successors,
+    notice queue, balances.  (Both hypotheses are invariants of reachable states: ids come from
+    `createRollapp`, which refuses an existing id; notice-queue entries are written together with the
+    sequencer's notice time.) -/
+theorem export_import_identity (s : St) (hd : IdsDistinct s.ras) (hn : NqOk s) : reimport s = s :=
+  reimport_id s hd hn
+
+/-- hence the second export equals the first … -/
+theorem export_import_export (s : St) (hd : IdsDistinct s.ras) (hn : NqOk s) :
+    exportCore (reimport s) = exportCore s := by rw [reimport_id s hd hn]
+
+/-- … and continuing with the same messages and blocks on both chains produces the same states
+    (and therefore the same results and observations) -/
+theorem continue_commutes (s : St) (hd : IdsDistinct s.ras) (hn : NqOk s) (ops : List Op) :
+    ops.foldl (fun s o => (step s o).1) (reimport s) = ops.foldl (fun s o => (step s o).1) s := by
+  rw [reimport_id s hd hn]
+
+/-- the flat genesis keeps hub height, time and parameters (no hypotheses needed) -/
 theorem reimport_clock (s : St) : (reimport s).h = s.h ∧ (reimport s).t = s.t ∧ (reimport s).p = s.p := ⟨rfl, rfl, rfl⟩
 
 /-- bank-side components, sequencer records, queue, liabilities and events are carried verbatim -/
@@ -13,5 +34,15 @@ theorem reimport_flat_components (s : St) :
     (reimport s).seqs = s.seqs ∧ (reimport s).queue = s.queue ∧ (reimport s).seqH = s.seqH ∧
     (reimport s).lev = s.lev ∧ (reimport s).obsolete = s.obsolete ∧ (reimport s).bal = s.bal ∧
     (reimport s).modBal = s.modBal := ⟨rfl, rfl, rfl, rfl, rfl, rfl, rfl⟩
+
+/-- without distinct ids the round trip is NOT the identity (two records under one id collapse to the
+    first one's indices): the hypothesis is needed, and `createRollapp` is what provides it -/
+theorem distinct_ids_needed :
+    ∃ s : St, ¬ IdsDistinct s.ras ∧ reimport s ≠ s := by
+  refine ⟨{ (init default) with ras := [{ (newRollapp 0 1 1) with lastFin := 1 }, newRollapp 0 1 1] }, ?_, ?_⟩
+  · intro h; have := (List.pairwise_cons.1 h).1 (newRollapp 0 1 1) (by simp); exact this rfl
+  · intro h
+    have := congrArg (fun s => s.ras.map (·.lastFin)) h
+    revert this; decide
 
 end DymVerif.C18
